@@ -184,3 +184,80 @@ pub fn oracle_parse(kind: &str, w: usize, off: usize, len: usize, buf: &[u8]) ->
     };
     if x as u128 == exp && o == off + len { "PASS".into() } else { format!("FAIL got {} expected {}", x, exp) }
 }
+
+/// PARSESEQ: ONE parser reads the fields in turn (64-bit carriers)
+pub fn op_parseseq(off: usize, fields: &[(char, usize)], buf: &[u8]) -> String {
+    let mut par = Parser::new(buf, off);
+    let mut out: Vec<String> = Vec::new();
+    for (k, w) in fields {
+        let r = match k {
+            'u' => par.parse::<U64>(*w).map(|v| v),
+            'i' => par.parse::<I64>(*w).map(|v| v as u64),
+            _ => par.parse::<SM64>(*w).map(|v| v as u64),
+        };
+        match r {
+            Ok(v) => out.push(v.to_string()),
+            Err(e) => {
+                out.push(err(e));
+                out.push(par.offset().to_string());
+                return out.join(" ");
+            }
+        }
+    }
+    out.push(par.offset().to_string());
+    out.join(" ")
+}
+
+/// the same reads, each by a fresh parser at the position the previous one reached
+pub fn oracle_parseseq(off: usize, fields: &[(char, usize)], buf: &[u8]) -> String {
+    let got = op_parseseq(off, fields, buf);
+    let mut o = off;
+    let mut out: Vec<String> = Vec::new();
+    for (k, w) in fields {
+        let kind = match k { 'u' => "U", 'i' => "I", _ => "SM" };
+        let (r, o2) = parse(kind, 64, o, *w, buf);
+        match r {
+            Ok(v) => { out.push(v.to_string()); o = o2; }
+            Err(e) => { out.push(err(e)); break; }
+        }
+    }
+    out.push(o.to_string());
+    let exp = out.join(" ");
+    if got == exp { "PASS".into() } else { format!("FAIL C07 one parser reading in turn gives {} ; fresh parsers give {}", &got[..got.len().min(80)], &exp[..exp.len().min(80)]) }
+}
+
+/// PUTSEQ: ONE assembler writes the fields in turn
+pub fn op_putseq(off: usize, buf: &[u8], fields: &[(char, usize, u64)]) -> String {
+    let mut b = buf.to_vec();
+    let (o, e) = {
+        let mut asm = Assembler::new(&mut b, off);
+        let mut e = None;
+        for (k, w, v) in fields {
+            let r = match k {
+                'u' => asm.put::<U64>(*v, *w),
+                'i' => asm.put::<I64>(*v as i64, *w),
+                _ => asm.put::<SM64>(*v as i64, *w),
+            };
+            if let Err(x) = r { e = Some(x); break; }
+        }
+        (asm.offset(), e)
+    };
+    match e {
+        None => format!("{} {}", hex(&b), o),
+        Some(x) => format!("{} {} {}", hex(&b), o, err(x)),
+    }
+}
+
+pub fn oracle_putseq(off: usize, buf: &[u8], fields: &[(char, usize, u64)]) -> String {
+    let got = op_putseq(off, buf, fields);
+    let mut b = buf.to_vec();
+    let mut o = off;
+    let mut tail = String::new();
+    for (k, w, v) in fields {
+        let kind = match k { 'u' => "U", 'i' => "I", _ => "SM" };
+        let (r, o2) = put(kind, 64, o, *w, *v, &mut b);
+        match r { Ok(()) => o = o2, Err(x) => { tail = format!(" {}", err(x)); break; } }
+    }
+    let exp = format!("{} {}{}", hex(&b), o, tail);
+    if got == exp { "PASS".into() } else { format!("FAIL C07 one assembler writing in turn differs from fresh assemblers: {} vs {}", &got[..got.len().min(70)], &exp[..exp.len().min(70)]) }
+}
